@@ -54,13 +54,26 @@ KINDS_5 = ("REALISTIC MAINTENANCE COMMITS that do not change behaviour: a micro-
            "order is not observable; replacing `assert` by an explicit raise of the same condition for valid-input paths; "
            "defensive copies of Python containers (tuple(x), list(x)) where the content is unchanged; simplifying boolean "
            "expressions by De Morgan / double negation; replacing chained comparisons by `and` of two comparisons")
+KINDS_6 = ("BEHAVIOUR-PRESERVING FEATURE WORK AND LARGER REFACTORS: adding a new optional keyword argument whose default "
+           "reproduces today's behaviour exactly and which is threaded through to where it is used (e.g. a `name`/`dtype`/"
+           "`unroll`/`show_progress`-style option, an optional callback, an optional precomputed value that is recomputed "
+           "when None); adding a new private helper, a new small public utility function or a new class that existing code "
+           "does not use (with a docstring), or an alternative constructor (classmethod) next to the existing one; splitting "
+           "a module-level function into two and keeping the old name as a thin wrapper; moving a helper to another module of "
+           "the package and importing it back under its old name; introducing a Protocol / type alias / TypeVar and using it "
+           "in annotations; adding __repr__ / __len__ / __iter__ conveniences that no existing code path uses; adding logging "
+           "or warnings.warn on paths that valid inputs never reach; adding input normalisation that is the identity for "
+           "every currently valid input (tuple(shape) for a shape that is already a tuple, operator.index(axis) for an int, "
+           "jnp.asarray of an array); early-exit guards for cases that currently reach the same result more slowly "
+           "(zero-length loops, empty chains); reorganising a long function into phases (validate / prepare / compute / "
+           "finalise) across helper functions without changing the order of any floating point operation or PRNG use")
 base = json.load(open("/root/.vp/BASELINE.json"))
 os.makedirs(root, exist_ok=True)
 open(f"{root}/baseline_stable_pass.txt", "w").write("\n".join(base["stable_pass"]) + "\n")
 open(f"{root}/baseline_always_fail.txt", "w").write("\n".join(base.get("always_fail", [])) + "\n")
 for a, area in areas.items():
     wt = f"{root}/wt_{a}"
-    kinds = KINDS_1 if rnd == 1 else KINDS_5 if rnd >= 5 else KINDS_4 if rnd == 4 else KINDS_2
+    kinds = KINDS_1 if rnd == 1 else KINDS_6 if rnd >= 6 else KINDS_5 if rnd == 5 else KINDS_4 if rnd == 4 else KINDS_2
     open(f"{root}/prompt_{a}.txt", "w").write(f"""You are helping test a code-analysis tool for false alarms. You work ONLY inside your own scratch git worktree: {wt} (a detached worktree of the Python library flowjax, a JAX/Equinox library of bijections, distributions, normalizing flows and training loops). Do NOT read or write anything under /verif, /root/.vp, /root/.claude, /repo, or any other directory under /tmp.
 
 TASK: produce SIX independent, strictly BEHAVIOUR-PRESERVING refactorings (call them R1..R6) of the library source in this area: {area}. Each must be the kind of commit a maintainer would plausibly make and a reviewer would accept as a pure refactor / clean-up, for example: {kinds}. Make them non-trivial (each should touch at least a few lines of real code, not only comments) and DIFFERENT in kind from each other; spread them over the files of the area. They must NOT change any observable behaviour for any input (values, shapes, errors raised and their types, randomness/key usage, gradients, pytree structure of the models, numerical stability: do not replace a numerically stable formula by a mathematically equivalent unstable one, and do not change the order of floating-point operations).
